@@ -70,50 +70,83 @@ Qed.
 Lemma canon_str_tstr ml ms v : canon_str ml ms v = tstr (canon ml ms v).
 Proof. reflexivity. Qed.
 
-Theorem canon_is_repr v : forall r, leaves_ok v = true -> py_repr v = Some r -> canon_str None None v = r.
+(* ---------- what pretty prints on one line, for EVERY container kind (no abbreviation) ---------- *)
+Definition items_text (tup : bool) (rs : list str) : str :=
+  match rs with
+  | [x] => if tup then x ++ lit "," else x
+  | _ => join_str (lit ", ") rs
+  end.
+
+Lemma tstr_body tup items : tstr (body tup items) = items_text tup (map tstr items).
+Proof.
+  rewrite body_eq. destruct items as [|x [|y r]]; cbn [single andb map items_text].
+  - now rewrite andb_false_r.
+  - destruct tup; cbn [andb]; [|reflexivity]. rewrite tstr_app. unfold tstr at 2. cbn. reflexivity.
+  - rewrite andb_false_r. apply (tstr_join_sep (x :: y :: r)).
+Qed.
+
+Theorem canon_str_seq k a x r ms :
+  canon_str None ms (Seq k a (x :: r))
+  = fst (fst (braces_spec_s k a)) ++ items_text (is_tup k) (map (canon_str None ms) (x :: r))
+      ++ snd (fst (braces_spec_s k a)).
+Proof.
+  rewrite canon_str_tstr, canon_seq_none, tstr_cons_open, tstr_body, map_map. reflexivity.
+Qed.
+
+Theorem canon_str_seq_empty k a ms : canon_str None ms (Seq k a []) = snd (braces_spec_s k a).
+Proof. unfold canon_str. cbn. now rewrite app_nil_r. Qed.
+
+Theorem canon_str_map k a x r ms :
+  canon_str None ms (Map k a (x :: r))
+  = fst (fst (braces_spec_m k a))
+      ++ items_text false (map (fun kv => tstr (keytoks (to_repr ms (fst kv))) ++ canon_str None ms (snd kv)) (x :: r))
+      ++ snd (fst (braces_spec_m k a)).
+Proof.
+  rewrite canon_str_tstr, canon_map_none, tstr_cons_open, tstr_body, map_map.
+  f_equal. f_equal. f_equal. apply map_ext. intros kv. now rewrite tstr_app.
+Qed.
+
+Theorem canon_str_map_empty k a ms : canon_str None ms (Map k a []) = snd (braces_spec_m k a).
+Proof. unfold canon_str. cbn. now rewrite app_nil_r. Qed.
+
+Lemma some_inj {A} (a b : A) : Some a = Some b -> a = b.
+Proof. congruence. Qed.
+
+(* ---------- ... and where Python's repr() is the same text ---------- *)
+Theorem canon_is_repr v : forall r, keys_nonempty v = true -> py_repr v = Some r -> canon_str None None v = r.
 Proof.
   induction v as [d| |k a xs IH|k a kvs IH] using V_ind'; intros r Hok H.
   - cbn in H. inversion H. unfold canon_str. cbn. now rewrite app_nil_r.
   - discriminate.
   - cbn [py_repr] in H. destruct (all_some (map py_repr xs)) as [rs|] eqn:E; [|discriminate].
-    apply all_some_map in E.
-    cbn [leaves_ok] in Hok. apply andb_true_iff in Hok. destruct Hok as [_ Hok].
+    apply all_some_map in E. cbn [keys_nonempty] in Hok.
     assert (Hm : map (canon_str None None) xs = rs).
     { apply (F2_map_eq _ py_repr); [|exact E].
       rewrite Forall_forall in IH |- *. rewrite forallb_forall in Hok. intros x Hx r0. apply IH; auto. }
     destruct xs as [|x xs'].
-    + inversion E; subst. destruct k; cbn in H; inversion H; reflexivity.
-    + rewrite canon_str_tstr, canon_seq_none, tstr_cons_open.
-      rewrite body_eq.
-      assert (Hj : tstr (join_sep (map (canon None None) (x :: xs'))) = join_str (lit ", ") rs).
-      { rewrite tstr_join_sep, map_map. exact (f_equal _ Hm). }
-      destruct k; cbn [is_tup andb braces_spec_s fst snd] in *; try discriminate.
-      * rewrite Hj. inversion H. reflexivity.
-      * destruct xs' as [|y ys].
-        -- cbn [map] in Hm. subst rs. inversion H. cbn [map single].
-           rewrite tstr_app, <- canon_str_tstr. unfold tstr. cbn [map concat tok_str].
-           rewrite <- !app_assoc. reflexivity.
-        -- cbn [map] in Hm. subst rs. inversion H. cbn [map single]. cbn [map] in Hj. rewrite Hj. reflexivity.
-      * rewrite Hj. subst rs. cbn [map] in H |- *. inversion H. reflexivity.
-      * rewrite Hj. subst rs. cbn [map] in H |- *. inversion H. reflexivity.
-  - cbn [py_repr] in H. destruct k; try discriminate.
-    destruct (all_some _) as [rs|] eqn:E; [|discriminate]. inversion H; subst r. clear H.
-    apply all_some_map in E.
-    cbn [leaves_ok] in Hok. apply andb_true_iff in Hok. destruct Hok as [_ Hok].
-    assert (Hm : map (fun kv => tstr (keytoks (to_repr None (fst kv)) ++ canon None None (snd kv))) kvs = rs).
+    + cbn [map] in Hm. subst rs. rewrite canon_str_seq_empty.
+      destruct k; cbn in H |- *; try discriminate; inversion H; reflexivity.
+    + rewrite canon_str_seq, Hm. cbn [map] in Hm.
+      destruct rs as [|r0 [|r1 rs']]; [discriminate| |];
+        destruct k; cbn [is_tup items_text braces_spec_s fst snd] in *; try discriminate;
+        apply some_inj in H; rewrite <- H; first [reflexivity | rewrite <- !app_assoc; reflexivity].
+  - cbn [py_repr] in H. destruct (all_some _) as [rs|] eqn:E; [|discriminate].
+    apply all_some_map in E. cbn [keys_nonempty] in Hok.
+    assert (Hm : map (fun kv => tstr (keytoks (to_repr None (fst kv))) ++ canon_str None None (snd kv)) kvs = rs).
     { apply (F2_map_eq _ (fun kv => match py_repr (snd kv) with
                                     | Some r => Some (fst (fst kv) ++ lit ": " ++ r)
                                     | None => None end)); [|exact E].
       rewrite Forall_forall in IH |- *. rewrite forallb_forall in Hok. intros kv Hkv r0 Hr0.
       destruct (py_repr (snd kv)) as [rv|] eqn:Ev; [|discriminate]. inversion Hr0; subst r0.
       specialize (Hok kv Hkv). apply andb_true_iff in Hok. destruct Hok as [Hk Hv].
-      rewrite tstr_app, keytoks_str. unfold to_repr. cbn [snd].
-      unfold leafd_ok in Hk. apply andb_true_iff in Hk. destruct Hk as [Hk _].
-      unfold str_ok in Hk. apply andb_true_iff in Hk. destruct Hk as [Hk _]. rewrite Hk.
-      rewrite <- app_assoc. f_equal. change (lit ": " ++ tstr (canon None None (snd kv))) with (58 :: 32 :: canon_str None None (snd kv)).
+      change (to_repr None (fst kv)) with (fst (fst kv)). rewrite keytoks_str, Hk.
+      rewrite <- app_assoc. f_equal. change (lit ": " ++ canon_str None None (snd kv)) with (58 :: 32 :: canon_str None None (snd kv)).
       f_equal. f_equal. apply (IH kv Hkv rv Hv Ev). }
     destruct kvs as [|kv kvs'].
-    + inversion E; subst. reflexivity.
-    + rewrite canon_str_tstr, canon_map_none, tstr_cons_open. rewrite body_eq. cbn [andb].
-      rewrite tstr_join_sep, map_map, Hm. reflexivity.
+    + cbn [map] in Hm. subst rs. rewrite canon_str_map_empty.
+      destruct k; cbn in H |- *; try discriminate; inversion H; reflexivity.
+    + rewrite canon_str_map, Hm. cbn [map] in Hm.
+      destruct rs as [|r0 [|r1 rs']]; [discriminate| |];
+        destruct k; cbn [items_text braces_spec_m fst snd] in *; try discriminate;
+        apply some_inj in H; rewrite <- H; first [reflexivity | rewrite <- !app_assoc; reflexivity].
 Qed.
